@@ -185,6 +185,51 @@ def merger_model(sample_quick):
         return cov, viol
     return run
 
+def sorter_model(cfgs, num_quick, num_thorough):
+    """Spec -> implementation for the sorter's buffer accounting: tlc -simulate on Sorter.tla prints
+    size sequences with the accounting the model predicts after each insert; they are replayed on the
+    real sorter (hook H2); TraceAlloc judges the bookkeeping, the predicted values are compared."""
+    def run(prop, tier, seed, work):
+        import json
+        from vlib import OUT, NCPU, ToolError, _java, gv, validate_family, sample_scenario, file_violation
+        cov = dict(kind="model-derived size sequences", runs=[], states=0, transitions=0, traces_validated_against_impl=0,
+                   events_validated=0, evaluations=0, distinct_nontrivial=0, samples=[])
+        viol = []
+        num = num_quick if tier == "quick" else num_thorough
+        for name in cfgs:
+            meta = os.path.join(OUT, "tlc", "%s-ssim-%s" % (prop, name))
+            shutil.rmtree(meta, ignore_errors=True)
+            rc, out = _java({"JAVA_TOOL_OPTIONS": "-Xss32m"}, ["-workers", "4", "-simulate", "num=%d" % num, "-depth", "70", "-seed", str(seed),
+                            "-metadir", meta, "-cleanup", "-noGenerateSpecTE", "-config", "MCSorterGen_%s.cfg" % name, "MCSorter.tla"], 1800)
+            shutil.rmtree(meta, ignore_errors=True)
+            if "is violated" in out or "Error:" in out:
+                raise ToolError("Sorter model (%s) violates its invariants in simulation:\n%s" % (name, out[-2000:]))
+            consts = dict(re.findall(r"^  (\w+) = (\S+)$", open(os.path.join(os.path.dirname(os.path.abspath(__file__)), "..", "spec", "MCSorterGen_%s.cfg" % name)).read(), re.M))
+            seqs = {}
+            for line in out.splitlines():
+                if line.startswith('"SSEQ '):
+                    body = line[len('"SSEQ '):-1]
+                    seqs[body] = json.loads(body.replace("<<", "[").replace(">>", "]"))
+            d = os.path.join(work, "sseq-" + name)
+            os.makedirs(d, exist_ok=True)
+            with open(os.path.join(d, "s.json"), "w") as f:
+                json.dump(dict(name=name, T=int(consts["T"]), InitCap=int(consts["InitCap"]), Realloc=consts["Realloc"] == "TRUE",
+                               MaxChunks=int(consts["MaxChunks"]), seqs=list(seqs.values())), f)
+            info = gv(["sseq", os.path.join(d, "s.json"), "--out", d, "--shards", NCPU])
+            res = validate_family("TraceAlloc", "TraceAlloc.cfg", d, "sseq", "%s-sseq-%s" % (prop, name))
+            for k2, k3 in (("traces_validated_against_impl", "scenarios"), ("events_validated", "events"), ("evaluations", "events"),
+                           ("distinct_nontrivial", "distinct"), ("states", "states"), ("transitions", "generated")):
+                cov[k2] += res[k3]
+            cov["runs"].append(dict(cfg=name, sequences=len(seqs), model_steps_compared=info.get("model_steps_compared"),
+                                    drift_model_vs_impl=info.get("model_accounting_drift"), rejected=len(res["rejected"])))
+            if not cov["samples"]:
+                cov["samples"].append(dict(family="sseq-" + name, first_lines=sample_scenario(d, "sseq", maxlines=6)))
+            for rej in res["rejected"]:
+                p = file_violation(prop, rej, dict(module="TraceAlloc", cfg="TraceAlloc.cfg", family="sseq", name=name))
+                viol.append((p, "%s (size sequence generated from the Sorter model) rejected at event %s" % (rej["scn"], rej["ev"])))
+        return cov, viol
+    return run
+
 TRUST = ["TLC/SANY and the Json/IOUtils community modules",
          "harness glue that names a returned (key, value) by exact byte equality with an inserted pair",
          "dictionary ranks: TLC itself verifies that rank order is lexicographic byte order (Bytes!Cmp)"]
@@ -287,7 +332,7 @@ PLANS = {
                 gen=[G("cut", 300, 10000, "TraceLayout", "TraceLayout_C15.cfg"),
                      # the files the sorter writes itself (spilled and merged chunks)
                      G("chunks", 48, 1500, "TraceLayout", "TraceLayout_C15.cfg")]),
-    "C17": dict(level="other", explanation="Partial: decides the allocation protocol (layout equality, guard words, double free, leak of the sorter buffer class), the sorter's two-ended buffer bookkeeping (hook H2) and arithmetic overflow (checked build) on executions of the real code, validated by TLC against Alloc.tla. Out-of-bounds READS, use of freed memory through a lifetime-extended reference, alignment and provenance violations leave no trace in these events and are NOT decided (needs Miri/ASan, a different technique family).",
+    "C17": dict(level="other", extra=[sorter_model(["a", "b", "c"], 30, 400)], explanation="Partial: decides the allocation protocol (layout equality, guard words, double free, leak of the sorter buffer class), the sorter's two-ended buffer bookkeeping (hook H2) and arithmetic overflow (checked build) on executions of the real code, validated by TLC against Alloc.tla. Out-of-bounds READS, use of freed memory through a lifetime-extended reference, alignment and provenance violations leave no trace in these events and are NOT decided (needs Miri/ASan, a different technique family).",
                 assumptions=TRUST + ["monitoring global allocator of the harness process (header + canaries per block)", "hook H2 exposes the sorter's buffer accounting", "overflow checks of the dev-profile build"],
                 mc=[MC("MCSorter", "MCSorter_acct_realloc.cfg", workers=4), MC("MCSorter", "MCSorter_acct_fixed.cfg", workers=4),
                     MC("MCSorter", "MCSorter_acct_big.cfg", workers=4)],
